@@ -16,7 +16,12 @@ for f in os.listdir(f'{src}/demo'):
         shutil.copy(p, f'{dst}/demo/{f}')
 meta = json.load(open(f'{src}/meta.json'))
 confirm = open(f'{src}/confirm.log').read().strip().splitlines()[-1] if os.path.exists(f'{src}/confirm.log') else ''
-out = subprocess.run(['/verif/try_patch.sh', f'{dst}/patch.diff'] + checks, capture_output=True, text=True).stdout
+# build the harness against the agent's (patched) worktree, so that /repo's working tree is left alone
+wt = f'/tmp/wt/{wid}'
+applied = subprocess.run(['git', '-C', wt, 'apply', '-R', '--check', f'{dst}/patch.diff'], capture_output=True).returncode == 0
+if not applied:
+    subprocess.run(['git', '-C', wt, 'checkout', '--', '.']); subprocess.run(['git', '-C', wt, 'apply', f'{dst}/patch.diff'], check=True)
+out = subprocess.run(['/verif/tools/try_wt.sh', wt] + checks, capture_output=True, text=True).stdout
 results = {}
 cur = None
 for line in out.splitlines():
